@@ -240,3 +240,23 @@ Example C08_nonvacuous_pf :
   pf_run cind wv (csimilar SimEq) [[A; B; C]; [D; D]]
   = Some (mkhof [[1; 2]; [2; 0]] [C; D]).
 Proof. vm_compute. reflexivity. Qed.
+
+(* why the equal-fitness hypothesis of C08_hof_best_of_seen is needed (DESIGN Appendix B item 5):
+   B is similar to the member A but scored better, so it is rejected; A is later evicted; B is then
+   distinct from every member and strictly better than the worst one.  (Pairwise distinctness and
+   the size bound hold regardless: C08_hof_shape, C08_hof_distinct.) *)
+Example C08_equal_fitness_hypothesis_needed :
+  let A := mkind 0 [0; 0] [1] in let B := mkind 1 [0; 1] [5] in
+  let C := mkind 2 [1; 0] [2] in let D := mkind 3 [2; 0] [3] in
+  hof_run cind wv (csimilar SimHead) 2 [[A; C]; [B]; [D]] = Some (mkhof [[2]; [3]] [D; C]) /\
+  csimilar SimHead B A = true /\ csimilar SimHead B D = false /\ csimilar SimHead B C = false /\
+  fit_gt (wv B) (wv C) = true.
+Proof. vm_compute. repeat split. Qed.
+
+(* the round-1 miss: a newcomer dominating two members that are not adjacent in the sorted archive *)
+Example C08_nonvacuous_pf_noncontiguous :
+  let A := mkind 0 [0] [3; 2; 0] in let B := mkind 1 [1] [2; 9; 0] in
+  let C := mkind 2 [2] [1; 1; 1] in let D := mkind 3 [3] [4; 3; 1] in
+  pf_run cind wv (csimilar SimEq) [[A; B; C]; [D]]
+  = Some (mkhof [[2; 9; 0]; [4; 3; 1]] [D; B]).
+Proof. vm_compute. reflexivity. Qed.
